@@ -14,6 +14,7 @@ import (
 	"github.com/opencontainers/go-digest"
 	ocispec "github.com/opencontainers/image-spec/specs-go/v1"
 
+	"simshim/rt"
 	"verifsim/world"
 )
 
@@ -181,3 +182,20 @@ type ociOnlyVerifier struct{ notation.Verifier }
 func (ociOnlyVerifier) VerifyBlob(ctx context.Context, gen notation.BlobDescriptorGenerator, sig []byte, opts notation.BlobVerifierVerifyOptions) (*notation.VerificationOutcome, error) {
 	return nil, fmt.Errorf("harness: this verifier was built as an OCI verifier")
 }
+
+// yieldLogger is a caller-supplied logger (log.WithLogger) whose every call is a scheduling point: a host's logger
+// may block or hand the processor to another goroutine of the host at any log line.
+type yieldLogger struct{}
+
+func (yieldLogger) Debug(args ...interface{})                 { rt.Yield("log") }
+func (yieldLogger) Debugf(format string, args ...interface{}) { rt.Yield("log") }
+func (yieldLogger) Debugln(args ...interface{})               { rt.Yield("log") }
+func (yieldLogger) Info(args ...interface{})                  { rt.Yield("log") }
+func (yieldLogger) Infof(format string, args ...interface{})  { rt.Yield("log") }
+func (yieldLogger) Infoln(args ...interface{})                { rt.Yield("log") }
+func (yieldLogger) Warn(args ...interface{})                  { rt.Yield("log") }
+func (yieldLogger) Warnf(format string, args ...interface{})  { rt.Yield("log") }
+func (yieldLogger) Warnln(args ...interface{})                { rt.Yield("log") }
+func (yieldLogger) Error(args ...interface{})                 { rt.Yield("log") }
+func (yieldLogger) Errorf(format string, args ...interface{}) { rt.Yield("log") }
+func (yieldLogger) Errorln(args ...interface{})               { rt.Yield("log") }
